@@ -12,6 +12,7 @@
   The model is tied to the source on every run by `harness/props/c08.py` (regenerated `Gen/C08.lean` + correspondence).
 -/
 import HitenModel.Lemmas.C08NF
+import HitenModel.Lemmas.LieSeriesModel
 import HitenModel.Gen.C08
 import Mathlib.Analysis.Complex.Norm
 
@@ -363,5 +364,40 @@ example : (∀ d : ℚ, (decide (|d| < 1 / 100000000000000)) = false → d ≠ 0
     subst e
     simp at hd
   · intro c hc; simpa using hc
+
+/-! ### sentence 2: the transformed Hamiltonian is the original one composed with the coordinate change -/
+
+section LieSeriesProps
+variable {K : Type} [Field K] [DecidableEq K] [CharZero K]
+
+/-- **transform_is_composition** (one generator; `Lemmas/LieSeries.lean`, `Lemmas/LieSeriesModel.lean`): on the executable model of
+`_apply_poly_transform` / `_apply_coord_transform` — the SAME function `lieSeries`, tied to both routines by the exact correspondence — with
+exact cleaning, a generator without terms of degree `< 3` and at least `N` brackets (the code takes `K = max(N, …)`, `K_observed_sufficient`),
+every coefficient of degree `≤ N` of the transformed Hamiltonian is the coefficient of `H_old ∘ Φ`, `Φ_i = lieSeries(x_i)`.  A normal form
+applies this for the generators of degree 3, …, N in turn. -/
+theorem transform_is_composition {tiny : K → Bool} (htiny : ∀ c, tiny c = true → c = 0) (N Kc : Nat) (hK : N ≤ Kc)
+    (G H : Poly K) (hG : ∀ v ∈ G, 3 ≤ v.1.deg) (m : Mono) (hm : m.deg ≤ N) :
+    coeff (lieSeries tiny N Kc G H) m =
+      MvPolynomial.coeff m.toFinsupp
+        (MvPolynomial.aeval (fun i => toMv (lieSeries tiny N Kc G (HitenModel.LieSeries.coordPoly i))) (toMv H)) :=
+  HitenModel.LieSeries.model_lie_series_is_composition_coeff htiny N Kc hK G H hG m hm
+
+/-- **lie_series_ring_hom_mod_degree**: the underlying algebraic fact — modulo terms of degree `> N` the Lie series truncated after `N`
+brackets is multiplicative (Leibniz rule for the iterated bracket; the bracket with a generator of order `≥ 3` raises the order) -/
+theorem lie_series_ring_hom_mod_degree (N : Nat) (G f g : MvPolynomial (Fin 6) K) (hG : HitenModel.LieSeries.Ord 3 G)
+    (s : Fin 6 →₀ ℕ) (hs : s.degree ≤ N) :
+    MvPolynomial.coeff s (HitenModel.LieSeries.lieSum N G (f * g)) =
+      MvPolynomial.coeff s (HitenModel.LieSeries.lieSum N G f * HitenModel.LieSeries.lieSum N G g) :=
+  HitenModel.LieSeries.lie_series_multiplicative N G f g hG s hs
+
+/-- non-vacuity: a cubic generator and `K = N = 4` satisfy the hypotheses -/
+example : (∀ v ∈ ([(⟨2, 0, 0, 1, 0, 0⟩, (1 : ℚ)), (⟨0, 1, 1, 0, 1, 0⟩, 3)] : Poly ℚ), 3 ≤ v.1.deg) ∧ (4 : Nat) ≤ 4 := by
+  constructor
+  · intro v hv
+    simp only [List.mem_cons, List.not_mem_nil, or_false] at hv
+    rcases hv with rfl | rfl <;> decide
+  · decide
+
+end LieSeriesProps
 
 end HitenModel.Props.C08
